@@ -219,10 +219,49 @@ def _validate_part(ctx, todo, lines, by_id, name, d, devs, max_reject):
     return rejected, nvalid, len(todo)
 
 
-def validate(ctx, scenarios, name, par=32, jvms=5, max_reject=4):
-    """run the scenarios on the real broker; validate the traces twice, concurrently: with the deviations of the open
-    known findings of this property switched on (what is rejected there is explained by no recorded finding) and
-    strictly (the specification proper).  Returns (rejected, stats); strict-only rejections carry strict=True."""
+def _locate(todo, hwm):
+    pos = 0
+    for e in todo:
+        n = e["to"] - e["from"] + 1
+        if pos < hwm <= pos + n:
+            return e, hwm - pos
+        pos += n
+    return None, 0
+
+
+def _leave_one_out(ctx, index, lines, by_id, name, d, devs, dv, skip):
+    """is deviation dv needed?  The whole batch is validated with every open deviation but dv; the first scenario that
+    is rejected then (and is accepted with dv, since the lenient pass accepted it) shows the recorded defect.
+    Returns None or {scenario, line, fields}."""
+    todo = [e for e in index if e["id"] not in skip]
+    cur = os.path.join(d, "%s_without_%s.ndjson" % (name, dv))
+    with open(cur, "w") as fh:
+        for e in todo:
+            fh.write("\n".join(lines[e["from"] - 1: e["to"]]) + "\n")
+    acc, hwm, res, mm = tlc_validate(ctx, cur, deviation=[x for x in devs if x != dv])
+    if acc:
+        return None
+    if "Invariant" in (res.violation or "") and hwm is not None:
+        hwm -= 1
+    if hwm is None:
+        raise vlib.MachineryError("leave-one-out pass for %s rejected without a position:\n%s" % (dv, "\n".join(res.tail[-20:])))
+    bad, rel = _locate(todo, hwm)
+    if bad is None:
+        raise vlib.MachineryError("rejected line %s outside every scenario" % hwm)
+    seg = lines[bad["from"] - 1: bad["to"]]
+    fields = explain(seg, rel, mm) if mm and mm["line"] == hwm else None
+    return {"scenario": bad["id"], "line": rel, "fields": fields, "event": None if fields else (seg[rel - 1][:300] if 0 < rel <= len(seg) else None)}
+
+
+def validate(ctx, scenarios, name, par=32, jvms=3, max_reject=4):
+    """Run the scenarios on the real broker and validate the traces.
+    Verdict pass: the deviations of the open known findings of this property are switched on, so that the whole of
+    every trace is examined; whatever is rejected there is explained by no recorded finding.  With no open finding
+    this is the specification proper.
+    Attribution passes (concurrently, one per open deviation): the batch is validated with that one deviation switched
+    off; a rejection there is an occurrence of exactly that recorded defect (=> KNOWN-FINDING); no rejection means the
+    defect did not show (e.g. it has been repaired).
+    Returns (rejected, stats); stats["needs"] = {deviation: occurrence or None}."""
     devs = [k["deviation"] for k in open_deviations(ctx)]
     by_id = {s["id"]: s for s in scenarios}
     tp, index, stats = trace_lib.run_wire(ctx, scenarios, name, par=par)
@@ -232,16 +271,22 @@ def validate(ctx, scenarios, name, par=32, jvms=5, max_reject=4):
     d = os.path.dirname(tp)
     jvms = max(1, min(jvms, len(index) // 3 or 1))
     parts = [index[i::jvms] for i in range(jvms)]
-    passes = [("len", devs)] + ([("strict", [])] if devs else [])
     results = {}
+    needs = {}
     errors = []
 
-    def work(pname, pdevs, pi):
+    def work(pi):
         try:
-            results[(pname, pi)] = _validate_part(ctx, list(parts[pi]), lines, by_id, "%s_%s_p%d" % (name, pname, pi), d, pdevs, max_reject)
+            results[pi] = _validate_part(ctx, list(parts[pi]), lines, by_id, "%s_p%d" % (name, pi), d, devs, max_reject)
         except Exception as e:      # noqa
             errors.append(e)
-    ths = [threading.Thread(target=work, args=(pn, pd, i)) for pn, pd in passes for i in range(jvms)]
+
+    def loo(dv):
+        try:
+            needs[dv] = _leave_one_out(ctx, index, lines, by_id, name, d, devs, dv, ())
+        except Exception as e:      # noqa
+            errors.append(e)
+    ths = [threading.Thread(target=work, args=(i,)) for i in range(jvms)] + [threading.Thread(target=loo, args=(dv,)) for dv in devs]
     for t in ths:
         t.start()
     for t in ths:
@@ -251,23 +296,21 @@ def validate(ctx, scenarios, name, par=32, jvms=5, max_reject=4):
     rejected = []
     nvalid = unexamined = 0
     for i in range(jvms):
-        rj, nv, un = results[("len", i)]
+        rj, nv, un = results[i]
         rejected += rj
         nvalid += nv
         unexamined += un
     stats["validated"] = nvalid
     stats["rejected"] = len(rejected)
     stats["unexamined"] = unexamined
-    if devs:
-        bad = {r["scenario"]["id"] for r in rejected}
-        ns = 0
-        for i in range(jvms):
-            for r in results[("strict", i)][0]:
-                ns += 1
-                if r["scenario"]["id"] not in bad:
-                    r["strict"] = True
-                    rejected.append(r)
-        stats["strict_rejected"] = ns
+    bad = {r["scenario"]["id"] for r in rejected}
+    for dv in devs:
+        n = 0
+        while needs.get(dv) and needs[dv]["scenario"] in bad and n < 3:
+            # that scenario is rejected whatever is switched on: it says nothing about this deviation
+            n += 1
+            needs[dv] = _leave_one_out(ctx, index, lines, by_id, name, d, devs, dv, bad)
+    stats["needs"] = needs
     if scenarios:
         first = lines[index[0]["from"] - 1: index[0]["to"]]
         ctx.sample({"scenario": scenarios[0]["id"], "cfg": scenarios[0].get("cfg"), "first_steps": scenarios[0]["steps"][:8],
@@ -316,54 +359,24 @@ def describe(r):
     return "trace of scenario %s rejected at line %s: %s -- %s" % (sc["id"], r["line"], (r.get("event") or "")[:300], r.get("why"))
 
 
-def needed_deviations(ctx, tp, devs):
-    """smallest set of the given deviations under which the trace is accepted: one alone if one suffices, otherwise
-    the union minus every deviation that can be left out (None when not even the union explains the trace)"""
-    for dv in devs:
-        if tlc_validate(ctx, tp, deviation=[dv])[0]:
-            return [dv]
-    cur = list(devs)
-    if not tlc_validate(ctx, tp, deviation=cur)[0]:
-        return None
-    for dv in list(cur):
-        if len(cur) <= 2:
-            break
-        trial = [x for x in cur if x != dv]
-        if tlc_validate(ctx, tp, deviation=trial)[0]:
-            cur = trial
-    if len(cur) == 2:
-        pass        # neither alone sufficed: both are needed
-    return cur
-
-
-def confirm(ctx, rejected, limit=4, attribute_limit=10):
-    """* rejected although the deviations of all open findings were on (or there are none): the scenario is re-executed
-         alone in slow mode (settle after every barrier); still rejected => VIOLATION with the fields that differ;
-         accepted => counted as timing_unconfirmed (a snapshot taken before the broker had finished counting).
-       * rejected only by the strict pass: re-validated with single deviations / the smallest sufficient set =>
-         KNOWN-FINDING for each deviation in it."""
-    ctx.cov["rejected_scenarios"] = len([r for r in rejected if not r.get("strict")])
+def confirm(ctx, rejected, needs, limit=4):
+    """* every open deviation that the attribution pass found necessary => KNOWN-FINDING (with the occurrence);
+       * scenarios rejected although the deviations of all open findings were on (or there are none): re-executed alone
+         in slow mode (settle after every barrier); still rejected => VIOLATION with the fields that differ; accepted
+         => counted as timing_unconfirmed (a snapshot taken before the broker had finished counting)."""
+    ctx.cov["rejected_scenarios"] = len(rejected)
     devs = open_deviations(ctx)
     by_dev = {k["deviation"]: k for k in devs}
-    nconf = natt = 0
-    hits = ctx.cov.setdefault("known_finding_hits", {})
+    occ = ctx.cov.setdefault("known_finding_occurrences", {})
+    for dv, hit in (needs or {}).items():
+        if hit:
+            ctx.known_finding(by_dev[dv]["what"])
+            occ[dv] = {"scenario": hit["scenario"], "line": hit["line"], "fields": (hit.get("fields") or [])[:8], "event": hit.get("event")}
+        else:
+            occ[dv] = None
+    nconf = 0
     for r in rejected:
         sc = r["scenario"]
-        if r.get("strict"):
-            natt += 1
-            if natt > attribute_limit:
-                ctx.cov["strict_rejections_not_attributed_individually"] = ctx.cov.get("strict_rejections_not_attributed_individually", 0) + 1
-                continue
-            tp = os.path.join(ctx.tmp("kf"), "t%d.ndjson" % natt)
-            with open(tp, "w") as fh:
-                fh.write("\n".join(r["trace"]) + "\n")
-            need = needed_deviations(ctx, tp, list(by_dev))
-            if need is None:
-                raise vlib.MachineryError("scenario %s: accepted with all deviations in the batch but not alone" % sc["id"])
-            for dv in need:
-                ctx.known_finding(by_dev[dv]["what"])
-                hits[dv] = hits.get(dv, 0) + 1
-            continue
         nconf += 1
         if nconf > limit:
             continue
